@@ -16,10 +16,11 @@ Clause(c) ==
   ELSE IF Len(c.response.errors) # Cardinality(SeqSet(r.errors)) THEN "error-count-differs"
   ELSE IF \E k \in 1..Len(c.calls) : ~(\E j \in 1..Len(r.calls) : r.calls[j] = c.calls[k]) THEN "resolver-arguments-differ"
   \* C13: with data that conforms to the schema the only possible errors are the ones the specification defers to run
-  \* time (a null variable reaching a non-null argument that validation allowed because of a default): argument
+  \* time (a null variable given as a whole non-null argument that validation allowed because of a default): argument
   \* coercion fails and the resolver is not called
   ELSE IF c.conforming /\ \E k \in 1..Len(c.response.errors) : \E j \in 1..Len(c.calls) : c.calls[j].path = c.response.errors[k] THEN "error-although-data-conforms"
-  ELSE IF Len(c.calls) # Len(r.calls) THEN "drift-call-count"
+  ELSE IF c.conforming /\ \E j \in 1..Len(r.calls) : "failed" \in DOMAIN r.calls[j] /\ ~r.calls[j].legit THEN "argument-coercion-fails-where-validation-should-have-rejected"
+  ELSE IF Len(c.calls) # Cardinality({j \in 1..Len(r.calls) : "failed" \notin DOMAIN r.calls[j]}) THEN "drift-call-count"
   ELSE "ok"
 Check == LET c == Cases[i] cl == Clause(c) IN
          cl = "ok" \/ PrintT(ToJson([viol |-> i, clause |-> cl, spec |-> [data |-> Execute(c).data, errors |-> Execute(c).errors]]))
